@@ -6,7 +6,7 @@ func init() {
 		"the whole statement in the form `no public operation writes memory that existed before it started` (R1 over every public root: receiver, arguments and every frame, grouper or view that shares storage with them stay bit-for-bit unchanged for every sharing history; append on a prestate slice counts as a write).",
 		"nothing is excluded; the verdict rests on the points-to abstraction (allocation-site objects, folded recursive paths, by-value nesting bounded at 5) and on the library summary table.",
 		"New keeps the caller's slices by reference: a caller who later writes them alters the frame (caller's write, outside the property)")
-	prop("C02", []string{"R3", "R4", "R5", "R6", "R7", "R8", "R42", "R40", "R31", "R35", "R59", "R57", "R67", "R74", "R79", "R80", "R98", "R94", "R102", "R106", "R72"},
+	prop("C02", []string{"R3", "R4", "R5", "R6", "R7", "R8", "R42", "R40", "R31", "R35", "R59", "R57", "R67", "R74", "R79", "R80", "R98", "R94", "R102", "R106", "R72", "R109"},
 		"(i) OR accumulation is sound for every nesting: every store into the shared boolean index is monotone (R3); (ii) every built-in comparison kernel compares with the operator its table key names, cell on the left, column arguments read on the same row, all five types agreeing (R4); (iii) the negation shortcut is the logical complement including nulls, per column type (R5); (iv) kernels read the cell of row i at physical position index[i] and write bit i (R6, R42); (v) kept rows are a subsequence of the frame's rows in order, once each, foreign positions excluded (R7, R8); errors of column kernels reach Err (R31).",
 		"that orFrames' merge selects exactly the union and NotClause exactly the difference (value reasoning; they are in-order subsequences by R8); semantics of in/any_bits/all_bits; int<->float promotion; user predicates.")
 	prop("C03", []string{"R9", "R10", "R7", "R1s", "R6", "R78"},
@@ -30,7 +30,7 @@ func init() {
 	prop("C09", []string{"R6", "R42", "R44", "R63", "R70", "R13", "R84", "R85", "R98", "R104"},
 		"every accessor translates logical row i to position index[i]: views, ToCSV, ToJSON, String, ToSQL builders, Equals (R6); Equals reads the receiver through its own index and the other column through the other index at the same logical row, for all five types, and a type mismatch is unequal (R44); column order observed through names and through positions agree (R13).",
 		"reflexivity/symmetry/transitivity as such; NaN/null equality is checked only as far as R44's shape; String's truncation; `rebuilt with New is Equal`.")
-	prop("C10", []string{"R20", "R21", "R22", "R23", "R17", "R18", "R31", "R41", "R39", "R46", "R52", "R16", "R81", "R84", "R104", "R107"},
+	prop("C10", []string{"R20", "R21", "R22", "R23", "R17", "R18", "R31", "R41", "R39", "R46", "R52", "R16", "R81", "R84", "R104", "R107", "R109"},
 		"stickiness without callbacks, Len() = -1 on error, writers refuse errored frames (R20); dynamic union types are decoded without a panicking construct: table lookups are comma-ok before the call (R21), non-comma-ok type assertions and explicit panics equal the frozen documented lists (R22, R23); illegal names and bad slice bounds are rejected (R17, R18); errors from column kernels reach Err (R31); results of failing calls are not used before the error test (R41); names are validated before any early success return (R39).",
 		"absence of implicit panics in general (index out of range, nil dereference) beyond the specific ones above; nil FilterClause/Expression arguments and zero-value clause structs.")
 	prop("C11", []string{"R1", "R2", "R47", "R65"},
